@@ -1,6 +1,1066 @@
-//! C13 — not built yet.
-use crate::core::Ctx;
+//! C13 — reduced-ring arithmetic (`ConstDivisor::reduce`, `Reduced`, `num_modular::Reducer`) is
+//! the homomorphic image of integer arithmetic.
+//!
+//! Moduli: 1, 2, 3, powers of two, single / double / multi-word (3, 4, 33 … words), odd and even,
+//! with and without a normalisation shift, prime and composite (with a known factor, so that
+//! non-invertible non-zero residues are reached).  Operands: closed universe signed I3, shape
+//! universe up to 34 (thorough 100) words, and modulus-relative values (m-1, m, m+1, m/2, 2m, a
+//! factor of m, …) that sit on the conditional-subtract / borrow boundaries.
+//! Oracle: num_bigint `mod_floor` of the integer result ("operate, then reduce"), own
+//! square-and-multiply / `modpow` for pow, definitions for inv (gcd = 1 <=> Some, a*x = 1) and
+//! division (q*b = a, unique because b is a unit).
+
+use crate::core::{guard, Ctx, Rec};
+use crate::h::*;
+use crate::uni::*;
+use dashu_int::{fast_div::ConstDivisor, modular::Reduced, UBig};
+use num_bigint::{BigInt, BigUint, Sign as NSign};
+use num_integer::Integer;
+use num_modular::Reducer;
+use num_traits::{One, ToPrimitive, Zero};
+
+const P: &str = "C13";
+
+// ---------------------------------------------------------------------------------------------
+// moduli
+
+struct Md {
+    v: BigUint,
+    vi: BigInt,
+    tag: String,
+    /// a non-trivial factor (1 < f < m) when one is known
+    factor: Option<BigUint>,
+    /// signature class: ring kind + shift class
+    class: String,
+    words: usize,
+    shift: usize,
+    /// member of the quick-tier modulus list
+    core: bool,
+}
+
+fn md(tag: &str, v: BigUint, factor: Option<BigUint>) -> Md {
+    assert!(!v.is_zero());
+    let factor = factor.or_else(|| {
+        // trial division by small primes: deterministic, cheap
+        for p in [2u32, 3, 5, 7, 11, 13, 17, 19, 23, 29, 31, 37, 41, 43, 47, 53, 59, 61, 67, 71, 73, 79, 83, 89, 97, 101, 257, 641] {
+            let p = BigUint::from(p);
+            if v > p && (&v % &p).is_zero() {
+                return Some(p);
+            }
+        }
+        None
+    });
+    if let Some(f) = &factor {
+        assert!(f > &BigUint::one() && f < &v && (&v % f).is_zero(), "bad factor for {}", tag);
+    }
+    let words = word_len(&v);
+    let shift = (WBITS - (v.bits() as usize % WBITS)) % WBITS;
+    let kind = if v.is_one() {
+        "m=1"
+    } else {
+        match words {
+            1 => "single",
+            2 => "double",
+            3..=24 => "large3-24w",
+            _ => "large25w+",
+        }
+    };
+    let class = if v.is_one() { kind.to_string() } else { format!("{},{}", kind, if shift == 0 { "shift=0" } else { "shift>0" }) };
+    Md { vi: BigInt::from(v.clone()), v, tag: tag.to_string(), factor, class, words, shift, core: true }
+}
+
+fn odd(x: BigUint) -> BigUint {
+    x | BigUint::one()
+}
+fn even(x: BigUint) -> BigUint {
+    let x = odd(x);
+    x - 1u32
+}
+
+fn moduli(quick: bool, seed: u64) -> Vec<Md> {
+    let p2 = |k: u64| pow2(k);
+    let mut v: Vec<Md> = vec![];
+    let mut add = |q: bool, tag: &str, val: BigUint, f: Option<BigUint>| {
+        if q || !quick {
+            let mut m = md(tag, val, f);
+            m.core = q;
+            v.push(m);
+        }
+    };
+    // single (64-bit logical) word
+    add(true, "1", BigUint::one(), None);
+    add(true, "2", BigUint::from(2u32), None);
+    add(true, "3", BigUint::from(3u32), None);
+    for s in [4u32, 5, 6, 7, 8, 12, 15, 16, 100, 255, 256, 257, 10000, 65537] {
+        add(s == 12, &s.to_string(), BigUint::from(s), None);
+    }
+    add(true, "10", BigUint::from(10u32), None);
+    add(false, "2^31", p2(31), None);
+    add(true, "2^32-5(prime)", p2(32) - 5u32, None);
+    add(false, "2^32-1", p2(32) - 1u32, None);
+    add(true, "2^32", p2(32), None);
+    add(false, "2^32+1", p2(32) + 1u32, None);
+    add(false, "2^32+15(prime)", p2(32) + 15u32, None);
+    add(true, "2^61-1(prime)", p2(61) - 1u32, None);
+    add(false, "2^62", p2(62), None);
+    add(false, "2^63-1", p2(63) - 1u32, None);
+    add(true, "2^63", p2(63), None);
+    add(false, "2^63+1", p2(63) + 1u32, None);
+    add(true, "2^64-59(prime)", p2(64) - 59u32, None);
+    add(false, "2^64-2", p2(64) - 2u32, None);
+    add(true, "2^64-1", p2(64) - 1u32, None);
+    // double word
+    add(true, "2^64", p2(64), None);
+    add(true, "2^64+1", p2(64) + 1u32, Some(BigUint::from(274177u32)));
+    add(true, "2^64+13(prime)", p2(64) + 13u32, None);
+    add(false, "2^65", p2(65), None);
+    add(false, "3*2^64", p2(64) * 3u32, None);
+    add(false, "2^96+1", p2(96) + 1u32, None);
+    add(true, "2w:lcgA>>5,even", even(shape(2, "lcgA", seed) >> 5u32), None);
+    add(false, "2w:lcgB,odd", odd(shape(2, "lcgB", seed)), None);
+    add(true, "2^127", p2(127), None);
+    add(true, "2^127-1(prime)", p2(127) - 1u32, None);
+    add(true, "2^128-159(prime)", p2(128) - 159u32, None);
+    add(false, "2^128-2", p2(128) - 2u32, None);
+    add(true, "2^128-1", p2(128) - 1u32, None);
+    // three words
+    add(true, "3w:top1=2^128", shape(3, "top1", seed), None);
+    add(true, "3w:top1p1=2^128+1", shape(3, "top1p1", seed), None);
+    add(true, "3w:ones=2^192-1", shape(3, "ones", seed), None);
+    add(true, "2^191", p2(191), None);
+    add(true, "3w:lcgA,odd", odd(shape(3, "lcgA", seed)), None);
+    add(true, "3w:lcgA>>7,even", even(shape(3, "lcgA", seed) >> 7u32), None);
+    add(true, "3w:lcgSeed,odd", odd(shape(3, "lcgSeed", seed)), None);
+    add(false, "3w:alt", shape(3, "alt", seed), None);
+    add(false, "3w:sparse", shape(3, "sparse", seed), None);
+    add(false, "3w:topmax_low0", shape(3, "topmax_low0", seed), None);
+    add(false, "3w:pow2m1_mid", shape(3, "pow2m1_mid", seed), None);
+    add(false, "3w:lcgB>>30,odd", odd(shape(3, "lcgB", seed) >> 30u32), None);
+    {
+        // composite with a multi-word factor: (1-word odd) * (2-word odd)
+        let (p, q) = (odd(shape(1, "lcgA", seed)), odd(shape(2, "lcgB", seed) >> 3u32));
+        add(true, "3w:P1*Q2", &p * &q, Some(q));
+    }
+    // four words
+    add(true, "4w:top1=2^192", shape(4, "top1", seed), None);
+    add(true, "4w:ones=2^256-1", shape(4, "ones", seed), None);
+    add(true, "4w:lcgA>>11,odd", odd(shape(4, "lcgA", seed) >> 11u32), None);
+    {
+        let (p, q) = (odd(shape(2, "lcgA", seed)), odd(shape(2, "lcgB", seed) >> 9u32));
+        add(true, "4w:P2*Q2", &p * &q, Some(p));
+    }
+    add(false, "4w:sparse", shape(4, "sparse", seed), None);
+    add(false, "4w:lcgB,even", even(shape(4, "lcgB", seed)), None);
+    add(false, "5w:top1", shape(5, "top1", seed), None);
+    add(false, "5w:lcgA,odd", odd(shape(5, "lcgA", seed)), None);
+    add(false, "2^521-1(prime,9w)", p2(521) - 1u32, None);
+    add(false, "2^607-1(prime,10w)", p2(607) - 1u32, None);
+    // longer: product 2n words crosses the Karatsuba threshold (24) / division D&C threshold (32)
+    for n in [12usize, 16, 23, 24, 25, 31, 32, 34] {
+        add(false, &format!("{}w:lcgA,odd", n), odd(shape(n, "lcgA", seed)), None);
+    }
+    add(true, "33w:top1=2^2048", shape(33, "top1", seed), None);
+    add(true, "33w:ones", shape(33, "ones", seed), None);
+    add(true, "33w:lcgA,odd", odd(shape(33, "lcgA", seed)), None);
+    add(true, "33w:lcgB>>9,even", even(shape(33, "lcgB", seed) >> 9u32), None);
+    {
+        let (p, q) = (odd(shape(16, "lcgA", seed)), odd(shape(17, "lcgB", seed) >> 20u32));
+        add(true, "33w:P16*Q17", &p * &q, Some(p));
+    }
+    add(false, "2^2203-1(prime,35w)", p2(2203) - 1u32, None);
+    add(false, "65w:lcgA,odd", odd(shape(65, "lcgA", seed)), None);
+    add(false, "66w:ones", shape(66, "ones", seed), None);
+    add(false, "100w:lcgB>>3,even", even(shape(100, "lcgB", seed) >> 3u32), None);
+    v
+}
+
+// ---------------------------------------------------------------------------------------------
+// operands
+
+/// modulus-relative operands: they sit on the wrap / borrow / reduction boundaries of the ring
+const NREL: usize = 20;
+fn rel(m: &Md, k: usize) -> BigInt {
+    let mi = &m.vi;
+    let one = BigInt::one();
+    let len64 = ((m.v.bits() + 63) / 64).max(1);
+    match k {
+        0 => mi - 1,
+        1 => mi.clone(),
+        2 => mi + 1,
+        3 => mi - 2,
+        4 => mi / 2,
+        5 => mi / 2 + 1,
+        6 => mi / 2 - 1,
+        7 => mi * 2 - 1,
+        8 => mi * 2,
+        9 => -mi.clone(),
+        10 => &one - mi,
+        11 => mi * mi - 1,
+        12 => (mi << 64) + mi - 1,
+        13 => &one << ((m.v.bits() + 1) / 2),
+        14 => m.factor.as_ref().map(|f| BigInt::from(f.clone())).unwrap_or_else(BigInt::zero),
+        15 => m.factor.as_ref().map(|f| BigInt::from(&m.v / f)).unwrap_or_else(BigInt::zero),
+        16 => (&one << (64 * len64)) - 1,
+        17 => &one << (64 * len64),
+        18 => m.factor.as_ref().map(|f| BigInt::from(f.clone()) * BigInt::from(-3)).unwrap_or_else(|| -one.clone()),
+        19 => (mi - 1) * (mi - 1),
+        _ => unreachable!(),
+    }
+}
+
+fn operand<'a>(base: &'a [BigInt], m: &Md, i: usize) -> std::borrow::Cow<'a, BigInt> {
+    if i < base.len() {
+        std::borrow::Cow::Borrowed(&base[i])
+    } else {
+        std::borrow::Cow::Owned(rel(m, i - base.len()))
+    }
+}
+
+fn signed_shapes(lens: &[usize], pats: &[&'static str], seed: u64) -> Vec<BigInt> {
+    let mut v = vec![];
+    for s in shapes(lens, pats, seed) {
+        v.push(BigInt::from(s.v.clone()));
+        v.push(-BigInt::from(s.v));
+    }
+    v
+}
+
+// ---------------------------------------------------------------------------------------------
+// reference
+
+fn rmod(a: &BigInt, m: &Md) -> BigUint {
+    let r = a.mod_floor(&m.vi);
+    debug_assert!(r.sign() != NSign::Minus);
+    r.magnitude().clone()
+}
+
+/// own square-and-multiply (independent of num_bigint's Montgomery `modpow`)
+fn naive_modpow(b: &BigUint, e: &BigUint, m: &BigUint) -> BigUint {
+    let mut r = BigUint::one() % m;
+    let b = b % m;
+    for i in (0..e.bits()).rev() {
+        r = &r * &r % m;
+        if e.bit(i) {
+            r = r * &b % m;
+        }
+    }
+    r
+}
+
+fn one_mod(m: &Md) -> BigUint {
+    if m.v.is_one() {
+        BigUint::zero()
+    } else {
+        BigUint::one()
+    }
+}
+
+// ---------------------------------------------------------------------------------------------
+// judging helpers
+
+fn res(r: Result<Reduced<'_>, String>) -> Result<UBig, String> {
+    r.and_then(|x| guard(move || x.residue()))
+}
+
+fn exp_r(rec: &mut Rec, site: &str, class: &str, got: Result<Reduced<'_>, String>, want: &BigUint, case: &dyn Fn() -> String) -> bool {
+    expect_u(rec, P, site, class, res(got), want, case)
+}
+
+/// result of a `Reducer` method: must be a valid reduced form whose residue is `want`
+fn exp_red(rec: &mut Rec, ring: &ConstDivisor, site: &str, class: &str, got: Result<UBig, String>, want: &BigUint, case: &dyn Fn() -> String) -> bool {
+    match got {
+        Ok(t) => {
+            rec.step();
+            match guard(|| Reducer::<UBig>::check(ring, &t)) {
+                Ok(true) => {}
+                Ok(false) => {
+                    rec.fail(format!("{}|{}|invalid-form|{}", P, site, class), case(), format!("check() = false for the returned form {}", hexu(&u_to_ref(&t))), "a valid reduced form");
+                    return false;
+                }
+                Err(p) => {
+                    rec.fail(format!("{}|Reducer::check|panic|{}", P, class), case(), format!("panic: {}", p), "true");
+                    return false;
+                }
+            }
+            expect_u(rec, P, site, class, guard(|| Reducer::<UBig>::residue(ring, t)), want, case)
+        }
+        Err(p) => {
+            rec.step();
+            rec.fail(format!("{}|{}|panic|{}", P, site, class), case(), format!("panic: {}", p), hexu(want));
+            false
+        }
+    }
+}
+
+/// inv oracle: Some(x) <=> gcd(a, m) = 1, and then 0 <= x < m and a*x = 1 (mod m)
+fn judge_inv(rec: &mut Rec, site: &str, class: &str, got: Result<Option<UBig>, String>, ra: &BigUint, m: &Md, case: &dyn Fn() -> String) {
+    rec.step();
+    let g = ra.gcd(&m.v);
+    let unit = g.is_one();
+    match got {
+        Err(p) => rec.fail(format!("{}|{}|panic|{}", P, site, class), case(), format!("panic: {}", p), if unit { "Some(inverse)" } else { "None" }),
+        Ok(None) => {
+            if unit {
+                rec.fail(format!("{}|{}|wrong-value|{},unit->None", P, site, class), case(), "None", "Some(x) with a*x = 1 (mod m), because gcd(a, m) = 1");
+            }
+        }
+        Ok(Some(x)) => {
+            let x = u_to_ref(&x);
+            if !unit {
+                rec.fail(format!("{}|{}|wrong-value|{},non-unit->Some", P, site, class), case(), format!("Some({})", hexu(&x)), format!("None, because gcd(a, m) = {}", hexu(&g)));
+            } else if x >= m.v {
+                rec.fail(format!("{}|{}|wrong-value|{},out-of-range", P, site, class), case(), format!("Some({})", hexu(&x)), "an inverse in [0, m)");
+            } else if (ra * &x) % &m.v != one_mod(m) {
+                rec.fail(format!("{}|{}|wrong-value|{},not-an-inverse", P, site, class), case(), format!("Some({}), a*x mod m = {}", hexu(&x), hexu(&((ra * &x) % &m.v))), "a*x = 1 (mod m)");
+            }
+        }
+    }
+}
+
+/// division oracle: b unit => the unique q in [0, m) with q*b = a (mod m); otherwise a panic
+fn judge_div(rec: &mut Rec, site: &str, class: &str, got: Result<UBig, String>, ra: &BigUint, rb: &BigUint, unit: bool, m: &Md, case: &dyn Fn() -> String) {
+    if unit {
+        rec.step();
+        match got {
+            Ok(q) => {
+                let q = u_to_ref(&q);
+                if q >= m.v {
+                    rec.fail(format!("{}|{}|wrong-value|{},out-of-range", P, site, class), case(), hexu(&q), "a residue in [0, m)");
+                } else if (&q * rb) % &m.v != *ra {
+                    rec.fail(format!("{}|{}|wrong-value|{}", P, site, class), case(), format!("q = {}, q*b mod m = {}", hexu(&q), hexu(&((&q * rb) % &m.v))), format!("q with q*b = a = {} (mod m)", hexu(ra)));
+                }
+            }
+            Err(p) => rec.fail(format!("{}|{}|panic|{}", P, site, class), case(), format!("panic: {}", p), "a * inv(b)"),
+        }
+    } else {
+        expect_panic(rec, P, site, &format!("non-invertible divisor,{}", class), got, case);
+    }
+}
+
+fn ring_of(rec: &mut Rec, m: &Md, case: &dyn Fn() -> String) -> Option<ConstDivisor> {
+    match guard(|| ConstDivisor::new(ref_to_u(&m.v))) {
+        Ok(r) => Some(r),
+        Err(p) => {
+            rec.fail(format!("{}|ConstDivisor::new|panic|{}", P, m.class), case(), p, "a ring");
+            None
+        }
+    }
+}
+
+fn hit_ring(rec: &mut Rec, m: &Md) {
+    rec.hit(match m.words {
+        1 => "ring:single",
+        2 => "ring:double",
+        _ => "ring:large",
+    });
+    rec.hit(if m.shift == 0 { "shift=0" } else { "shift>0" });
+    if m.v.is_one() {
+        rec.hit("modulus=1");
+    }
+}
+
+// ---------------------------------------------------------------------------------------------
+// one element: reduce (all source types), residue range, neg, dbl, sqr, inv, eq, clone, Reducer
+
+fn unary(rec: &mut Rec, m: &Md, a: &BigInt) {
+    let cls = m.class.as_str();
+    let case = || format!("m = {} = {}; a = {}", m.tag, hexu(&m.v), hex(a));
+    let case: &dyn Fn() -> String = &case;
+    let ring = match ring_of(rec, m, case) {
+        Some(r) => r,
+        None => return,
+    };
+    hit_ring(rec, m);
+    let ra = rmod(a, m);
+    let negative = a.sign() == NSign::Minus;
+    if m.v > BigUint::one() && a.magnitude() > &BigUint::one() {
+        rec.nontrivial();
+    }
+    rec.hit(if negative { "reduce:negative" } else if a.magnitude() >= &m.v { "reduce:a>=m" } else { "reduce:a<m" });
+    expect_u(rec, P, "ConstDivisor::value", cls, guard(|| ring.value()), &m.v, case);
+
+    let ia = ref_to_i(a);
+    let x = match guard(|| ring.reduce(ia.clone())) {
+        Ok(x) => x,
+        Err(p) => {
+            rec.step();
+            rec.fail(format!("{}|ConstDivisor::reduce(IBig)|panic|{}", P, cls), case(), p, hexu(&ra));
+            return;
+        }
+    };
+    exp_r(rec, "ConstDivisor::reduce(IBig)", cls, Ok(x.clone()), &ra, case);
+    expect_u(rec, P, "Reduced::modulus", cls, guard(|| x.modulus()), &m.v, case);
+    if !negative {
+        let ua = ref_to_u(a.magnitude());
+        exp_r(rec, "ConstDivisor::reduce(UBig)", cls, guard(|| ring.reduce(ua.clone())), &ra, case);
+    }
+    // primitive sources
+    macro_rules! prim {
+        ($t:ty, $conv:ident) => {
+            if let Some(p) = a.$conv() {
+                rec.hit(concat!("reduce:", stringify!($t)));
+                exp_r(rec, concat!("ConstDivisor::reduce(", stringify!($t), ")"), cls, guard(|| ring.reduce(p)), &ra, case);
+            }
+        };
+    }
+    prim!(u8, to_u8);
+    prim!(u16, to_u16);
+    prim!(u32, to_u32);
+    prim!(u64, to_u64);
+    prim!(u128, to_u128);
+    prim!(usize, to_usize);
+    prim!(i8, to_i8);
+    prim!(i16, to_i16);
+    prim!(i32, to_i32);
+    prim!(i64, to_i64);
+    prim!(i128, to_i128);
+    prim!(isize, to_isize);
+    if a.is_zero() || a.is_one() {
+        exp_r(rec, "ConstDivisor::reduce(bool)", cls, guard(|| ring.reduce(a.is_one())), &ra, case);
+    }
+
+    // neg, dbl, sqr: operate on the integer, then reduce
+    let want_neg = rmod(&(-a), m);
+    let want_dbl = rmod(&(a * 2), m);
+    let want_sqr = rmod(&(a * a), m);
+    exp_r(rec, "Reduced::neg", cls, guard(|| -x.clone()), &want_neg, case);
+    exp_r(rec, "Reduced::neg(ref)", cls, guard(|| -&x), &want_neg, case);
+    exp_r(rec, "Reduced::dbl", cls, guard(|| x.clone().dbl()), &want_dbl, case);
+    exp_r(rec, "Reduced::sqr", cls, guard(|| x.sqr()), &want_sqr, case);
+    rec.hit(if ra.is_zero() { "neg:zero" } else { "neg:nonzero" });
+    rec.hit(if &ra * 2u32 >= m.v { "dbl:wraps" } else { "dbl:no-wrap" });
+    rec.hit(if &ra * &ra >= m.v { "sqr:needs-reduction" } else { "sqr:small" });
+
+    // inv
+    let unit = ra.gcd(&m.v).is_one();
+    rec.hit(if unit {
+        "inv:unit"
+    } else if ra.is_zero() {
+        "inv:zero-residue"
+    } else {
+        "inv:nonzero-non-unit"
+    });
+    if m.words >= 3 {
+        rec.hit(match word_len(&ra) {
+            0 => "inv-large:residue-0w",
+            1 => "inv-large:residue-1w(gcd_ext_word)",
+            2 => "inv-large:residue-2w(gcd_ext_dword)",
+            _ => "inv-large:residue-3w+(gcd_ext_in_place)",
+        });
+    }
+    let inv = guard(|| x.inv());
+    let inv_res = match &inv {
+        Ok(Some(y)) => guard(|| y.residue()).map(Some),
+        Ok(None) => Ok(None),
+        Err(p) => Err(p.clone()),
+    };
+    judge_inv(rec, "Reduced::inv", cls, inv_res, &ra, m, case);
+    if let Ok(Some(y)) = &inv {
+        if unit {
+            // x * inv(x) = 1 through the implementation's own multiplication
+            exp_r(rec, "Reduced::mul(x,inv(x))", cls, guard(|| &x * y), &one_mod(m), case);
+        }
+    }
+
+    // equality is equality of residues
+    let same = ref_to_i(&(a + &m.vi));
+    let next = ref_to_i(&(a + 1));
+    expect_eq(rec, P, "Reduced::eq", cls, guard(|| x == ring.reduce(same.clone())), &true, case);
+    expect_eq(rec, P, "Reduced::eq", cls, guard(|| x == ring.reduce(next.clone())), &m.v.is_one(), case);
+    expect_eq(rec, P, "Reduced::ne", cls, guard(|| x != ring.reduce(next.clone())), &!m.v.is_one(), case);
+    // clone / clone_from keep the element
+    exp_r(rec, "Reduced::clone_from", cls, guard(|| { let mut z = ring.reduce(1u8); z.clone_from(&x); z }), &ra, case);
+
+    // num_modular::Reducer view of the same ring (works on non-negative integers)
+    if !negative {
+        let ua = ref_to_u(a.magnitude());
+        expect_u(rec, P, "Reducer::modulus", cls, guard(|| Reducer::<UBig>::modulus(&ring)), &m.v, case);
+        let t = match guard(|| Reducer::<UBig>::transform(&ring, ua.clone())) {
+            Ok(t) => t,
+            Err(p) => {
+                rec.step();
+                rec.fail(format!("{}|Reducer::transform|panic|{}", P, cls), case(), p, "a reduced form");
+                return;
+            }
+        };
+        exp_red(rec, &ring, "Reducer::transform", cls, Ok(t.clone()), &ra, case);
+        expect_eq(rec, P, "Reducer::is_zero", cls, guard(|| Reducer::<UBig>::is_zero(&ring, &t)), &ra.is_zero(), case);
+        exp_red(rec, &ring, "Reducer::neg", cls, guard(|| Reducer::<UBig>::neg(&ring, t.clone())), &want_neg, case);
+        exp_red(rec, &ring, "Reducer::dbl", cls, guard(|| Reducer::<UBig>::dbl(&ring, t.clone())), &want_dbl, case);
+        exp_red(rec, &ring, "Reducer::sqr", cls, guard(|| Reducer::<UBig>::sqr(&ring, t.clone())), &want_sqr, case);
+        let rinv = guard(|| Reducer::<UBig>::inv(&ring, t.clone()));
+        let rinv_res = match rinv {
+            Ok(Some(y)) => guard(|| Reducer::<UBig>::residue(&ring, y)).map(Some),
+            Ok(None) => Ok(None),
+            Err(p) => Err(p),
+        };
+        judge_inv(rec, "Reducer::inv", cls, rinv_res, &ra, m, case);
+    }
+}
+
+// ---------------------------------------------------------------------------------------------
+// two elements: + - * / == in every ownership form, Reducer binary methods
+
+fn binary(rec: &mut Rec, m: &Md, a: &BigInt, b: &BigInt) {
+    let cls = m.class.as_str();
+    let case = || format!("m = {} = {}; a = {}; b = {}", m.tag, hexu(&m.v), hex(a), hex(b));
+    let case: &dyn Fn() -> String = &case;
+    let ring = match ring_of(rec, m, case) {
+        Some(r) => r,
+        None => return,
+    };
+    hit_ring(rec, m);
+    let (ra, rb) = (rmod(a, m), rmod(b, m));
+    let (ia, ib) = (ref_to_i(a), ref_to_i(b));
+    let (x, y) = match guard(|| (ring.reduce(ia.clone()), ring.reduce(ib.clone()))) {
+        Ok(p) => p,
+        Err(p) => {
+            rec.step();
+            rec.fail(format!("{}|ConstDivisor::reduce(IBig)|panic|{}", P, cls), case(), p, "two ring elements");
+            return;
+        }
+    };
+    if m.v > BigUint::one() && !(a.magnitude() <= &BigUint::one() && b.magnitude() <= &BigUint::one()) {
+        rec.nontrivial();
+    }
+    let sum = rmod(&(a + b), m);
+    let dif = rmod(&(a - b), m);
+    let prd = rmod(&(a * b), m);
+    // outcome classes (decided on the reference side)
+    let s = &ra + &rb;
+    rec.hit(if s == m.v { "add:sum=m" } else if s > m.v { "add:wraps" } else { "add:no-wrap" });
+    rec.hit(if ra < rb { "sub:borrows" } else if ra == rb { "sub:equal" } else { "sub:no-borrow" });
+    rec.hit(if &ra * &rb >= m.v { "mul:needs-reduction" } else { "mul:small-product" });
+    if ra == rb && m.words >= 3 {
+        rec.hit("mul:equal-operands(square shortcut)");
+    }
+
+    exp_r(rec, "Reduced::add(ref,ref)", cls, guard(|| &x + &y), &sum, case);
+    exp_r(rec, "Reduced::add(val,val)", cls, guard(|| x.clone() + y.clone()), &sum, case);
+    exp_r(rec, "Reduced::add(val,ref)", cls, guard(|| x.clone() + &y), &sum, case);
+    exp_r(rec, "Reduced::add(ref,val)", cls, guard(|| &x + y.clone()), &sum, case);
+    exp_r(rec, "Reduced::add_assign(ref)", cls, guard(|| { let mut t = x.clone(); t += &y; t }), &sum, case);
+    exp_r(rec, "Reduced::add_assign(val)", cls, guard(|| { let mut t = x.clone(); t += y.clone(); t }), &sum, case);
+
+    exp_r(rec, "Reduced::sub(ref,ref)", cls, guard(|| &x - &y), &dif, case);
+    exp_r(rec, "Reduced::sub(val,val)", cls, guard(|| x.clone() - y.clone()), &dif, case);
+    exp_r(rec, "Reduced::sub(val,ref)", cls, guard(|| x.clone() - &y), &dif, case);
+    exp_r(rec, "Reduced::sub(ref,val)", cls, guard(|| &x - y.clone()), &dif, case);
+    exp_r(rec, "Reduced::sub_assign(ref)", cls, guard(|| { let mut t = x.clone(); t -= &y; t }), &dif, case);
+    exp_r(rec, "Reduced::sub_assign(val)", cls, guard(|| { let mut t = x.clone(); t -= y.clone(); t }), &dif, case);
+
+    exp_r(rec, "Reduced::mul(ref,ref)", cls, guard(|| &x * &y), &prd, case);
+    exp_r(rec, "Reduced::mul(val,val)", cls, guard(|| x.clone() * y.clone()), &prd, case);
+    exp_r(rec, "Reduced::mul(val,ref)", cls, guard(|| x.clone() * &y), &prd, case);
+    exp_r(rec, "Reduced::mul(ref,val)", cls, guard(|| &x * y.clone()), &prd, case);
+    exp_r(rec, "Reduced::mul_assign(ref)", cls, guard(|| { let mut t = x.clone(); t *= &y; t }), &prd, case);
+    exp_r(rec, "Reduced::mul_assign(val)", cls, guard(|| { let mut t = x.clone(); t *= y.clone(); t }), &prd, case);
+
+    let unit = rb.gcd(&m.v).is_one();
+    rec.hit(if unit { "div:by-unit" } else { "div:by-non-unit(panic)" });
+    judge_div(rec, "Reduced::div(ref,ref)", cls, guard(|| (&x / &y).residue()), &ra, &rb, unit, m, case);
+    judge_div(rec, "Reduced::div(val,val)", cls, guard(|| (x.clone() / y.clone()).residue()), &ra, &rb, unit, m, case);
+    judge_div(rec, "Reduced::div_assign(ref)", cls, guard(|| { let mut t = x.clone(); t /= &y; t.residue() }), &ra, &rb, unit, m, case);
+    if unit {
+        // (the other three forms forward to the same code; a panicking case costs microseconds,
+        // so they are exercised on the returning cases only)
+        judge_div(rec, "Reduced::div(val,ref)", cls, guard(|| (x.clone() / &y).residue()), &ra, &rb, unit, m, case);
+        judge_div(rec, "Reduced::div(ref,val)", cls, guard(|| (&x / y.clone()).residue()), &ra, &rb, unit, m, case);
+        judge_div(rec, "Reduced::div_assign(val)", cls, guard(|| { let mut t = x.clone(); t /= y.clone(); t.residue() }), &ra, &rb, unit, m, case);
+    }
+
+    rec.hit(if ra == rb { "eq:true" } else { "eq:false" });
+    expect_eq(rec, P, "Reduced::eq", cls, guard(|| x == y), &(ra == rb), case);
+
+    // Reducer: forms of |a|, |b| (transform takes non-negative integers)
+    if a.sign() != NSign::Minus && b.sign() != NSign::Minus {
+        let (ua, ub) = (ref_to_u(a.magnitude()), ref_to_u(b.magnitude()));
+        if let Ok((ta, tb)) = guard(|| (Reducer::<UBig>::transform(&ring, ua.clone()), Reducer::<UBig>::transform(&ring, ub.clone()))) {
+            exp_red(rec, &ring, "Reducer::add", cls, guard(|| Reducer::<UBig>::add(&ring, &ta, &tb)), &sum, case);
+            exp_red(rec, &ring, "Reducer::sub", cls, guard(|| Reducer::<UBig>::sub(&ring, &ta, &tb)), &dif, case);
+            exp_red(rec, &ring, "Reducer::mul", cls, guard(|| Reducer::<UBig>::mul(&ring, &ta, &tb)), &prd, case);
+            exp_red(rec, &ring, "Reducer::add_in_place", cls, guard(|| { let mut t = ta.clone(); Reducer::<UBig>::add_in_place(&ring, &mut t, &tb); t }), &sum, case);
+            exp_red(rec, &ring, "Reducer::sub_in_place", cls, guard(|| { let mut t = ta.clone(); Reducer::<UBig>::sub_in_place(&ring, &mut t, &tb); t }), &dif, case);
+            exp_red(rec, &ring, "Reducer::mul_in_place", cls, guard(|| { let mut t = ta.clone(); Reducer::<UBig>::mul_in_place(&ring, &mut t, &tb); t }), &prd, case);
+        }
+    }
+}
+
+// ---------------------------------------------------------------------------------------------
+// pow
+
+fn exp_class(e: &BigUint) -> &'static str {
+    if e.is_zero() {
+        "e=0"
+    } else if e.is_one() {
+        "e=1"
+    } else if *e == BigUint::from(2u32) {
+        "e=2"
+    } else {
+        match word_len(e) {
+            1 => "e:word",
+            2 => "e:dword",
+            _ => "e:large",
+        }
+    }
+}
+
+fn pow_case(rec: &mut Rec, m: &Md, a: &BigInt, e: &BigUint, etag: &str, with_naive: bool) {
+    let ecl = exp_class(e);
+    let cls = format!("{},{}", m.class, ecl);
+    let cls = cls.as_str();
+    let case = || format!("m = {} = {}; a = {}; e = {} = {}", m.tag, hexu(&m.v), hex(a), etag, hexu(e));
+    let case: &dyn Fn() -> String = &case;
+    let ring = match ring_of(rec, m, case) {
+        Some(r) => r,
+        None => return,
+    };
+    hit_ring(rec, m);
+    rec.hit(ecl);
+    let ra = rmod(a, m);
+    let want = ra.modpow(e, &m.v);
+    if with_naive && want != naive_modpow(&ra, e, &m.v) {
+        rec.fail(format!("{}|harness|reference-disagreement|pow", P), case(), "num_bigint modpow != own square-and-multiply", "the two references agree");
+        return;
+    }
+    if m.v > BigUint::one() && ra > BigUint::one() && *e > BigUint::one() {
+        rec.nontrivial();
+    }
+    let (ia, ue) = (ref_to_i(a), ref_to_u(e));
+    exp_r(rec, "Reduced::pow", cls, guard(|| ring.reduce(ia.clone()).pow(&ue)), &want, case);
+    exp_red(rec, &ring, "Reducer::pow", cls, guard(|| { let t = Reducer::<UBig>::transform(&ring, ref_to_u(&ra)); Reducer::<UBig>::pow(&ring, t, &ue) }), &want, case);
+}
+
+// ---------------------------------------------------------------------------------------------
 
 pub fn run(ctx: &mut Ctx) {
-    ctx.machinery("check C13 is not built yet");
+    ctx.rule = "moduli list (1, 2, 3, small composites, 2^k, word / double-word / 3-, 4-, 33-word and longer moduli: odd, even, power of two, with and without normalisation shift, known primes and composites with a known factor) x operands from signed I3 (closed, <=3 words over the 9-atom alphabet), the signed shape universe (length class x word pattern, up to 34 words quick / 100 words thorough) and 20 modulus-relative values (m-1, m, m+1, m/2, 2m, -m, m^2-1, a factor of m, ...): unary sweep = every (modulus, a): reduce from IBig/UBig/all primitive types, residue, modulus, neg, dbl, sqr, inv, eq, clone_from and the num_modular::Reducer unary methods; binary sweep = every (modulus, a, b): + - * / in all six ownership forms, ==, Reducer add/sub/mul (+ _in_place); inv sweep = every I3 modulus x every I3 magnitude; pow sweeps = moduli x bases x exponent list (0 .. multi-word) and exponent bit-length x bit-pattern grid across the window-size switches; mixing sweep = every ordered pair of ring instances x every binary operator form (must panic); Reducer::check sweep on valid and invalid forms. non-trivial = modulus > 1 and an operand outside {0, +-1} (pow: base residue > 1 and exponent > 1)".into();
+    ctx.assume("num_bigint 0.4 (mod_floor, gcd, modpow) is a correct reference: cross-checked in every run against u128/i128 arithmetic on a small universe, and modpow against an own square-and-multiply loop on every case of the pow.window sweep and the single/double-word part of pow.grid");
+    ctx.assume("the moduli tagged (prime) are known primes (2^32-5, 2^32+15, 2^61-1, 2^64-59, 2^64+13, 2^127-1, 2^128-159, 2^521-1, 2^607-1, 2^2203-1); the oracle never uses primality (inv is judged by gcd), the tag only names the coverage intent");
+    ctx.assume("for m = 1 the property is read literally: residues lie in [0, 1) = {0}, and gcd(0, 1) = 1 so inv(0) = Some(0) and 0 / 0 = 0");
+    ctx.assume("Reducer::check oracle: a valid reduced form is a value of the image of transform, i.e. r << shift with r < m (shift = leading zeros of the top word of m, the documented normalisation); the run verifies transform(r) = r << shift on every probed r before judging");
+
+    let quick = ctx.quick();
+    let mods = moduli(quick, ctx.seed);
+    let nm = mods.len() as u64;
+    ctx.bound("moduli", nm);
+    ctx.bound("moduli_max_words", mods.iter().map(|m| ((m.v.bits() + 63) / 64) as u64).max().unwrap());
+    ctx.bound("moduli_tags", serde_json::json!(mods.iter().map(|m| m.tag.clone()).collect::<Vec<_>>()));
+
+    // -----------------------------------------------------------------------------------------
+    // reference self-check
+    {
+        let ms: [u128; 9] = [1, 2, 3, 10, 97, 1 << 32, (1 << 61) - 1, u64::MAX as u128, (1u128 << 64) + 13];
+        let xs: [i128; 11] = [0, 1, -1, 2, -2, 96, 97, -98, 0xFFFF_FFFF, -(1i128 << 63), (1i128 << 64) + 5];
+        let mut bad = false;
+        for &m in &ms {
+            let mm = md("self", BigUint::from(m), None);
+            for &x in &xs {
+                let r = x.rem_euclid(m as i128) as u128;
+                bad |= rmod(&BigInt::from(x), &mm) != BigUint::from(r);
+                // gcd by Euclid on u128
+                let (mut g, mut h) = (r, m);
+                while h != 0 {
+                    let t = g % h;
+                    g = h;
+                    h = t;
+                }
+                bad |= BigUint::from(r).gcd(&mm.v) != BigUint::from(g);
+                for &y in &xs {
+                    if m <= u64::MAX as u128 {
+                        let s = y.rem_euclid(m as i128) as u128;
+                        bad |= rmod(&(BigInt::from(x) * BigInt::from(y)), &mm) != BigUint::from(r * s % m);
+                        bad |= rmod(&(BigInt::from(x) - BigInt::from(y)), &mm) != BigUint::from((r + m - s) % m);
+                    }
+                }
+                if m <= u64::MAX as u128 {
+                    for e in [0u32, 1, 2, 3, 15, 16, 17, 64, 65, 1000] {
+                        let mut p: u128 = 1 % m;
+                        for _ in 0..e {
+                            p = p * r % m;
+                        }
+                        let eb = BigUint::from(e);
+                        bad |= BigUint::from(r).modpow(&eb, &mm.v) != BigUint::from(p);
+                        bad |= naive_modpow(&BigUint::from(r), &eb, &mm.v) != BigUint::from(p);
+                    }
+                }
+            }
+        }
+        if bad {
+            ctx.machinery("reference self-check failed (BigInt mod_floor / gcd / modpow vs u128)");
+        }
+    }
+
+    // -----------------------------------------------------------------------------------------
+    // operand universes
+    let i3 = signed(&i3_mags());
+    let pats_q: Vec<&'static str> = vec!["ones", "top1", "sparse", "lcgA", "lcgSeed"];
+    let sh_unary = signed_shapes(&ctx.pick(vec![4, 5, 32, 33, 34], vec![4, 5, 6, 24, 32, 33, 34, 35, 66, 67, 100]), &ctx.pick(pats_q.clone(), PATTERNS.to_vec()), ctx.seed);
+    let mut un_base = i3.clone();
+    un_base.extend(sh_unary.iter().cloned());
+    ctx.bound("operand_max_words", ctx.pick(34u64, 100u64));
+    ctx.bound("unary_operands_per_modulus", (un_base.len() + NREL) as u64);
+
+    // (A) unary
+    let nu = (un_base.len() + NREL) as u64;
+    let (modr, unr) = (&mods, &un_base);
+    ctx.sweep("unary", nm * nu, |i, rec| {
+        let [mi, ai] = unflatten(i, [nm, nu]);
+        let m = &modr[mi];
+        let a = operand(unr, m, ai);
+        unary(rec, m, &a);
+        rec.sample(|| format!("mod {}: reduce/neg/dbl/sqr/inv/eq/Reducer of a = {}", m.tag, hex(&a)));
+    });
+    ctx.require_classes("unary", &[
+        "ring:single", "ring:double", "ring:large", "shift=0", "shift>0", "modulus=1", "reduce:negative", "reduce:a>=m", "reduce:a<m",
+        "reduce:u8", "reduce:u64", "reduce:u128", "reduce:i8", "reduce:i64", "reduce:i128", "neg:zero", "neg:nonzero", "dbl:wraps", "dbl:no-wrap",
+        "sqr:needs-reduction", "sqr:small", "inv:unit", "inv:zero-residue", "inv:nonzero-non-unit", "inv-large:residue-0w",
+        "inv-large:residue-1w(gcd_ext_word)", "inv-large:residue-2w(gcd_ext_dword)", "inv-large:residue-3w+(gcd_ext_in_place)",
+    ]);
+
+    // (B) binary.  Small moduli (<= 5 logical words) get the big operand set, long moduli a smaller one.
+    let small3: Vec<BigInt> = {
+        // 3-word magnitudes over a 4-atom alphabet (the 1- and 2-word part comes from I2)
+        let all = closed_mags(&[0, 1, 1 << 63, u64::MAX], 3);
+        signed(&all.into_iter().filter(|v| v.bits() > 128).collect::<Vec<_>>())
+    };
+    let mut bin_small: Vec<BigInt> = signed(&closed_mags(&A9, 2));
+    bin_small.extend(small3.iter().cloned());
+    bin_small.extend(signed_shapes(&[4, 5, 33, 34], &pats_q, ctx.seed));
+    let bin_big: Vec<BigInt> = if quick {
+        bin_small.clone()
+    } else {
+        let mut v = i3.clone();
+        v.extend(signed_shapes(&[4, 5, 6, 32, 33, 34, 35, 66, 67, 100], &PATTERNS, ctx.seed));
+        v
+    };
+    // long moduli: small closed part (residue = value or m - value) + shapes around the modulus length
+    let mut bin_long: Vec<BigInt> = signed(&closed_mags(&[0, 1, 1 << 63, u64::MAX], 2));
+    bin_long.extend(signed_shapes(&ctx.pick(vec![3, 5, 17, 32, 33, 34, 35], vec![3, 5, 12, 17, 24, 25, 32, 33, 34, 35, 64, 65, 66, 67, 100, 101]), &ctx.pick(pats_q.clone(), PATTERNS.to_vec()), ctx.seed));
+    let long_moduli: Vec<usize> = (0..mods.len()).filter(|&k| mods[k].v.bits() > 5 * 64).collect();
+    let short_core: Vec<usize> = (0..mods.len()).filter(|&k| mods[k].v.bits() <= 5 * 64 && mods[k].core).collect();
+    let short_extra: Vec<usize> = (0..mods.len()).filter(|&k| mods[k].v.bits() <= 5 * 64 && !mods[k].core).collect();
+    // quick: core moduli x small operand set.  thorough: core moduli x (signed I3 + all shapes),
+    // the additional thorough-only moduli x small operand set.
+    let mut plan: Vec<(&str, &Vec<usize>, &Vec<BigInt>)> = vec![("binary.moduli<=5w", &short_core, &bin_big)];
+    if !short_extra.is_empty() {
+        plan.push(("binary.extra-moduli<=5w", &short_extra, &bin_small));
+    }
+    plan.push(("binary.moduli>5w", &long_moduli, &bin_long));
+    for (name, idxs, base) in plan {
+        let nb = (base.len() + NREL) as u64;
+        let nmm = idxs.len() as u64;
+        ctx.bound(&format!("{}:moduli", name), nmm);
+        ctx.bound(&format!("{}:operands_per_modulus", name), nb);
+        ctx.sweep(name, nmm * nb * nb, |i, rec| {
+            let [mi, ai, bi] = unflatten(i, [nmm, nb, nb]);
+            let m = &modr[idxs[mi]];
+            let (a, b) = (operand(base, m, ai), operand(base, m, bi));
+            binary(rec, m, &a, &b);
+            rec.sample(|| format!("mod {}: a = {}, b = {}: + - * / == in all forms", m.tag, hex(&a), hex(&b)));
+        });
+        ctx.require_classes(name, &[
+            "shift=0", "shift>0", "add:sum=m", "add:wraps", "add:no-wrap", "sub:borrows", "sub:equal", "sub:no-borrow", "mul:needs-reduction",
+            "mul:small-product", "div:by-unit", "div:by-non-unit(panic)", "eq:true", "eq:false",
+        ]);
+    }
+    ctx.require_classes("binary.moduli<=5w", &["ring:single", "ring:double", "ring:large", "modulus=1", "mul:equal-operands(square shortcut)"]);
+    ctx.require_classes("binary.moduli>5w", &["ring:large", "mul:equal-operands(square shortcut)"]);
+
+    // (C) inverse / division, closed: every non-zero I3 magnitude as modulus x every I3 magnitude
+    let i3m = i3_mags();
+    let i3mods: Vec<Md> = i3m.iter().filter(|v| !v.is_zero()).map(|v| md("I3", v.clone(), None)).collect();
+    let (nim, nia) = (i3mods.len() as u64, i3m.len() as u64);
+    let (i3modr, i3mr) = (&i3mods, &i3m);
+    ctx.bound("inv.closed:moduli", nim);
+    ctx.sweep("inv.closed.I3xI3", nim * nia, |i, rec| {
+        let [mi, ai] = unflatten(i, [nim, nia]);
+        let m = &i3modr[mi];
+        let a = BigInt::from(i3mr[ai].clone());
+        let cls = m.class.as_str();
+        let case = || format!("m = {}; a = {}", hexu(&m.v), hex(&a));
+        let case: &dyn Fn() -> String = &case;
+        let ring = match ring_of(rec, m, case) {
+            Some(r) => r,
+            None => return,
+        };
+        hit_ring(rec, m);
+        let ra = rmod(&a, m);
+        let ua = ref_to_u(a.magnitude());
+        let unit = ra.gcd(&m.v).is_one();
+        rec.hit(if unit { "inv:unit" } else if ra.is_zero() { "inv:zero-residue" } else { "inv:nonzero-non-unit" });
+        if m.words >= 3 {
+            rec.hit(match word_len(&ra) {
+                0 => "inv-large:residue-0w",
+                1 => "inv-large:residue-1w(gcd_ext_word)",
+                2 => "inv-large:residue-2w(gcd_ext_dword)",
+                _ => "inv-large:residue-3w+(gcd_ext_in_place)",
+            });
+        }
+        if m.v > BigUint::one() && ra > BigUint::one() {
+            rec.nontrivial();
+        }
+        judge_inv(rec, "Reduced::inv", cls, guard(|| ring.reduce(ua.clone()).inv().map(|y| y.residue())), &ra, m, case);
+        // 1 / a and (m-1) / a
+        judge_div(rec, "Reduced::div(ref,ref)", cls, guard(|| (&ring.reduce(1u8) / &ring.reduce(ua.clone())).residue()), &one_mod(m), &ra, unit, m, case);
+        let mm1 = &m.v - 1u32;
+        judge_div(rec, "Reduced::div(val,val)", cls, guard(|| (ring.reduce(ref_to_u(&mm1)) / ring.reduce(ua.clone())).residue()), &mm1, &ra, unit, m, case);
+        judge_inv(rec, "Reducer::inv", cls, guard(|| { let t = Reducer::<UBig>::transform(&ring, ua.clone()); Reducer::<UBig>::inv(&ring, t).map(|y| Reducer::<UBig>::residue(&ring, y)) }), &ra, m, case);
+        rec.sample(|| format!("inv of {} modulo {}", hex(&a), hexu(&m.v)));
+    });
+    ctx.require_classes("inv.closed.I3xI3", &[
+        "ring:single", "ring:double", "ring:large", "shift=0", "shift>0", "inv:unit", "inv:zero-residue", "inv:nonzero-non-unit",
+        "inv-large:residue-1w(gcd_ext_word)", "inv-large:residue-2w(gcd_ext_dword)", "inv-large:residue-3w+(gcd_ext_in_place)",
+    ]);
+
+    // (D) pow: moduli x bases x exponent list
+    let mut exps: Vec<(String, BigUint)> = vec![];
+    for e in [0u64, 1, 2, 3, 4, 5, 6, 7, 8, 15, 16, 17, 31, 32, 33, 63, 64, 65, 127, 128, 255, 256, 1000, (1 << 32) - 1, 1 << 32, (1 << 32) + 1, 1 << 63, u64::MAX] {
+        exps.push((e.to_string(), BigUint::from(e)));
+    }
+    for (t, v) in [
+        ("2^64", pow2(64)), ("2^64+1", pow2(64) + 1u32), ("2^65-1", pow2(65) - 1u32), ("2^127", pow2(127)), ("2^128-1", pow2(128) - 1u32),
+        ("2^128", pow2(128)), ("2^128+1", pow2(128) + 1u32), ("2w:lcgA", shape(2, "lcgA", ctx.seed)), ("3w:top1", shape(3, "top1", ctx.seed)),
+        ("3w:ones", shape(3, "ones", ctx.seed)), ("3w:lcgA", shape(3, "lcgA", ctx.seed)), ("3w:alt", shape(3, "alt", ctx.seed)),
+        ("3w:lcgSeed", shape(3, "lcgSeed", ctx.seed)), ("4w:lcgB", shape(4, "lcgB", ctx.seed)),
+    ] {
+        exps.push((t.to_string(), v));
+    }
+    if !quick {
+        for (t, v) in [("3w:sparse", shape(3, "sparse", ctx.seed)), ("5w:ones", shape(5, "ones", ctx.seed)), ("10w:lcgA", shape(10, "lcgA", ctx.seed)), ("34w:sparse", shape(34, "sparse", ctx.seed))] {
+            exps.push((t.to_string(), v));
+        }
+    }
+    const NEREL: usize = 3; // m-1, m-2, m (Fermat / Euler style exponents tied to the modulus)
+    let mut pow_bases: Vec<BigInt> = vec![];
+    for v in [0i64, 1, 2, 3, -1, -7, 10, 0xFFFF_FFFF, 1 << 32] {
+        pow_bases.push(BigInt::from(v));
+    }
+    pow_bases.push(BigInt::from(u64::MAX));
+    pow_bases.push(BigInt::from(shape(1, "lcgA", ctx.seed)));
+    pow_bases.push(BigInt::from(shape(2, "lcgB", ctx.seed)));
+    pow_bases.push(-BigInt::from(shape(3, "lcgA", ctx.seed)));
+    pow_bases.push(BigInt::from(shape(5, "lcgSeed", ctx.seed)));
+    pow_bases.push(BigInt::from(shape(34, "sparse", ctx.seed)));
+    const NPB_CORE: usize = 15;
+    assert_eq!(pow_bases.len(), NPB_CORE);
+    if !quick {
+        pow_bases.extend(signed(&closed_mags(&A9, 2)));
+    }
+    const PBREL: [usize; 6] = [0, 3, 4, 14, 15, 13]; // m-1, m-2, m/2, factor, cofactor, 2^(bits/2)
+    let (npb, nex) = ((pow_bases.len() + PBREL.len()) as u64, (exps.len() + NEREL) as u64);
+    ctx.bound("pow.grid:bases_per_modulus", npb);
+    ctx.bound("pow.grid:exponents", nex);
+    ctx.bound("pow.grid:max_exponent_words", ctx.pick(4u64, 34u64));
+    let (pbr, exr) = (&pow_bases, &exps);
+    ctx.sweep("pow.grid", nm * npb * nex, |i, rec| {
+        let [mi, bi, ei] = unflatten(i, [nm, npb, nex]);
+        let m = &modr[mi];
+        if m.words > 5 && bi >= NPB_CORE && bi < pbr.len() {
+            // the closed I2 block of bases is only used with moduli of <= 5 words
+            rec.hit("pruned:I2-bases-x-long-modulus");
+            return;
+        }
+        let a = if bi < pbr.len() { pbr[bi].clone() } else { rel(m, PBREL[bi - pbr.len()]) };
+        let (etag, e) = if ei < exr.len() {
+            (exr[ei].0.clone(), exr[ei].1.clone())
+        } else {
+            match ei - exr.len() {
+                0 => ("m-1".to_string(), &m.v - 1u32),
+                1 => ("m-2 (or 0)".to_string(), if m.v > BigUint::one() { &m.v - 2u32 } else { BigUint::zero() }),
+                _ => ("m".to_string(), m.v.clone()),
+            }
+        };
+        // second reference only where it is cheap
+        pow_case(rec, m, &a, &e, &etag, m.v.bits() <= 128 && e.bits() <= 256);
+        rec.sample(|| format!("mod {}: ({}) ^ {}", m.tag, hex(&a), etag));
+    });
+    ctx.require_classes("pow.grid", &["ring:single", "ring:double", "ring:large", "shift=0", "shift>0", "modulus=1", "e=0", "e=1", "e=2", "e:word", "e:dword", "e:large"]);
+
+    // (E) pow: exponent bit length x bit pattern, across the sliding-window size switches of the
+    // multi-word ring (window grows at exponent lengths of about 7, 25, 81, 241, 673, 1793 bits)
+    let mut elens: Vec<u64> = vec![];
+    elens.extend(2..=12);
+    elens.extend(22..=28);
+    elens.extend(62..=67);
+    elens.extend(76..=86);
+    elens.extend(126..=130);
+    elens.extend(236..=246);
+    if !quick {
+        elens.extend(190..=194);
+        elens.extend(660..=685);
+        elens.extend(1785..=1800);
+        elens.extend(4600..=4615);
+    }
+    let epats = ["ones", "top1", "top1p1", "alt", "lcg", "lcgSeed", "low-window-only"];
+    let wmods: Vec<usize> = (0..mods.len())
+        .filter(|&k| {
+            let t = mods[k].tag.as_str();
+            ["2^32-5(prime)", "2^64-59(prime)", "2^128-159(prime)", "3w:lcgA,odd", "3w:lcgA>>7,even", "4w:P2*Q2", "33w:lcgA,odd"].contains(&t)
+        })
+        .collect();
+    let wbases: Vec<BigInt> = vec![BigInt::from(3), BigInt::from(shape(2, "lcgA", ctx.seed)), -BigInt::from(shape(4, "lcgB", ctx.seed))];
+    let (nwm, nwb, nel, nep) = (wmods.len() as u64, wbases.len() as u64, elens.len() as u64, epats.len() as u64);
+    ctx.bound("pow.window:exponent_bit_lengths", serde_json::json!(elens));
+    let seed = ctx.seed;
+    let (wmr, wbr, elr) = (&wmods, &wbases, &elens);
+    ctx.sweep("pow.window", nwm * nwb * nel * nep, |i, rec| {
+        let [mi, bi, li, pi] = unflatten(i, [nwm, nwb, nel, nep]);
+        let m = &modr[wmr[mi]];
+        let bits = elr[li];
+        if m.words > 24 && bits > 700 {
+            rec.hit("pruned:long-modulus-x-long-exponent");
+            return;
+        }
+        let top = pow2(bits - 1);
+        let e: BigUint = match epats[pi] {
+            "ones" => pow2(bits) - 1u32,
+            "top1" => top.clone(),
+            "top1p1" => &top + 1u32,
+            "alt" => (shape((bits as usize + 63) / 64 + 1, "alt", seed) % &top) | &top,
+            "lcg" => (shape((bits as usize + 63) / 64 + 1, "lcgB", seed) % &top) | &top,
+            "lcgSeed" => (shape((bits as usize + 63) / 64 + 1, "lcgSeed", seed) % &top) | &top,
+            _ => &top | BigUint::from(0b1011_0111u32), // a long run of zero bits, then a busy low end
+        };
+        rec.hit(match bits {
+            0..=6 => "ebits<=6",
+            7..=24 => "ebits7-24",
+            25..=80 => "ebits25-80",
+            81..=240 => "ebits81-240",
+            241..=672 => "ebits241-672",
+            673..=1792 => "ebits673-1792",
+            _ => "ebits>1792",
+        });
+        pow_case(rec, m, &wbr[bi], &e, &format!("{}bits:{}", bits, epats[pi]), true);
+        rec.sample(|| format!("mod {}: ({}) ^ ({} bits, {})", m.tag, hex(&wbr[bi]), bits, epats[pi]));
+    });
+    ctx.require_classes("pow.window", &["ring:single", "ring:double", "ring:large", "ebits<=6", "ebits7-24", "ebits25-80", "ebits81-240", "ebits241-672"]);
+    if !quick {
+        ctx.require_classes("pow.window", &["ebits673-1792", "ebits>1792"]);
+    }
+
+    // (F) mixing elements of two ConstDivisor instances panics (also with equal moduli)
+    let mix_mods: Vec<BigUint> = vec![BigUint::from(7u32), pow2(63) + 1u32, pow2(64) + 13u32, pow2(128) - 159u32, odd(shape(3, "lcgA", ctx.seed)), odd(shape(4, "lcgA", ctx.seed) >> 11u32), shape(33, "ones", ctx.seed)];
+    let mix_vals: [u64; 3] = [0, 1, 5];
+    const NOPS: u64 = 27;
+    let nmx = mix_mods.len() as u64;
+    let mxr = &mix_mods;
+    ctx.sweep("mixing.rings", nmx * nmx * 3 * 3 * NOPS, |i, rec| {
+        let [m1, m2, v1, v2, op] = unflatten(i, [nmx, nmx, 3, 3, NOPS]);
+        let (r1, r2) = (ConstDivisor::new(ref_to_u(&mxr[m1])), ConstDivisor::new(ref_to_u(&mxr[m2])));
+        let (x, y) = (r1.reduce(mix_vals[v1]), r2.reduce(mix_vals[v2]));
+        rec.hit(if m1 == m2 { "mix:equal-moduli-distinct-instances" } else if word_len(&mxr[m1]).min(3) == word_len(&mxr[m2]).min(3) { "mix:same-kind-different-moduli" } else { "mix:different-kinds" });
+        let case = || format!("x = {} (mod {}) from instance 1; y = {} (mod {}) from instance 2; form #{}", mix_vals[v1], hexu(&mxr[m1]), mix_vals[v2], hexu(&mxr[m2]), op);
+        let (site, got): (&str, Result<UBig, String>) = match op {
+            0 => ("Reduced::add(ref,ref)", guard(|| (&x + &y).residue())),
+            1 => ("Reduced::add(val,val)", guard(|| (x.clone() + y.clone()).residue())),
+            2 => ("Reduced::add(val,ref)", guard(|| (x.clone() + &y).residue())),
+            3 => ("Reduced::add(ref,val)", guard(|| (&x + y.clone()).residue())),
+            4 => ("Reduced::add_assign(ref)", guard(|| { let mut t = x.clone(); t += &y; t.residue() })),
+            5 => ("Reduced::add_assign(val)", guard(|| { let mut t = x.clone(); t += y.clone(); t.residue() })),
+            6 => ("Reduced::sub(ref,ref)", guard(|| (&x - &y).residue())),
+            7 => ("Reduced::sub(val,val)", guard(|| (x.clone() - y.clone()).residue())),
+            8 => ("Reduced::sub(val,ref)", guard(|| (x.clone() - &y).residue())),
+            9 => ("Reduced::sub(ref,val)", guard(|| (&x - y.clone()).residue())),
+            10 => ("Reduced::sub_assign(ref)", guard(|| { let mut t = x.clone(); t -= &y; t.residue() })),
+            11 => ("Reduced::sub_assign(val)", guard(|| { let mut t = x.clone(); t -= y.clone(); t.residue() })),
+            12 => ("Reduced::mul(ref,ref)", guard(|| (&x * &y).residue())),
+            13 => ("Reduced::mul(val,val)", guard(|| (x.clone() * y.clone()).residue())),
+            14 => ("Reduced::mul(val,ref)", guard(|| (x.clone() * &y).residue())),
+            15 => ("Reduced::mul(ref,val)", guard(|| (&x * y.clone()).residue())),
+            16 => ("Reduced::mul_assign(ref)", guard(|| { let mut t = x.clone(); t *= &y; t.residue() })),
+            17 => ("Reduced::mul_assign(val)", guard(|| { let mut t = x.clone(); t *= y.clone(); t.residue() })),
+            18 => ("Reduced::div(ref,ref)", guard(|| (&x / &y).residue())),
+            19 => ("Reduced::div(val,val)", guard(|| (x.clone() / y.clone()).residue())),
+            20 => ("Reduced::div(val,ref)", guard(|| (x.clone() / &y).residue())),
+            21 => ("Reduced::div(ref,val)", guard(|| (&x / y.clone()).residue())),
+            22 => ("Reduced::div_assign(ref)", guard(|| { let mut t = x.clone(); t /= &y; t.residue() })),
+            23 => ("Reduced::div_assign(val)", guard(|| { let mut t = x.clone(); t /= y.clone(); t.residue() })),
+            24 => ("Reduced::eq", guard(|| UBig::from((x == y) as u8))),
+            25 => ("Reduced::ne", guard(|| UBig::from((x != y) as u8))),
+            _ => {
+                // control: the same expression inside one instance must NOT panic
+                let z = r1.reduce(mix_vals[v2]);
+                let want = (BigUint::from(mix_vals[v1]) + BigUint::from(mix_vals[v2])) % &mxr[m1];
+                rec.hit("mix:control-same-instance-no-panic");
+                expect_u(rec, P, "Reduced::add(ref,ref)", "same-instance-control", guard(|| (&x + &z).residue()), &want, case);
+                return;
+            }
+        };
+        rec.nontrivial();
+        let kinds = format!("{}x{}", ["", "single", "double", "large"][word_len(&mxr[m1]).min(3)], ["", "single", "double", "large"][word_len(&mxr[m2]).min(3)]);
+        if expect_panic(rec, P, site, &format!("different rings,{}", kinds), got.clone(), case) {
+            // the documented message
+            if let Err(p) = &got {
+                rec.hit(if p.contains("different rings") { "mix:panic-message=different-rings" } else if p.contains("non-invertible") { "mix:panic-message=non-invertible(division by 0 of the other ring)" } else { "mix:panic-message=other" });
+            }
+        }
+        rec.sample(case);
+    });
+    ctx.require_classes("mixing.rings", &["mix:equal-moduli-distinct-instances", "mix:same-kind-different-moduli", "mix:different-kinds", "mix:control-same-instance-no-panic", "mix:panic-message=different-rings"]);
+
+    // (G) Reducer::check separates valid from invalid forms; Reducer::new builds the same ring
+    const NCK: u64 = 10;
+    ctx.sweep("reducer.check", nm * NCK, |i, rec| {
+        let [mi, k] = unflatten(i, [nm, NCK]);
+        let m = &modr[mi];
+        let cls = m.class.as_str();
+        let s = m.shift;
+        let nrm = &m.v << s; // normalised modulus
+        let (x, kind): (BigUint, &str) = match k {
+            0 => (BigUint::zero(), "valid:0"),
+            1 => ((&m.v - 1u32) << s, "valid:(m-1)<<shift"),
+            2 => ((&m.v / 2u32) << s, "valid:(m/2)<<shift"),
+            3 => (nrm.clone(), "invalid:equals-normalised-modulus"),
+            4 => (&nrm + (BigUint::one() << s), "invalid:normalised-modulus+1unit"),
+            5 => ((&nrm << 1) - (BigUint::one() << s), "invalid:2m-1"),
+            6 => (&nrm << 64, "invalid:one-word-longer"),
+            7 => (BigUint::one(), "low-bits:1"),
+            8 => (((&m.v - 1u32) << s) | BigUint::one(), "low-bits:((m-1)<<shift)|1"),
+            _ => (pow2(s as u64) - 1u32, "low-bits:2^shift-1"),
+        };
+        let valid = (&x >> s) < m.v && ((&x >> s) << s) == x;
+        if k >= 7 && s == 0 {
+            rec.hit("skipped:no-shift-no-low-bits");
+            return;
+        }
+        let case = || format!("m = {} = {} (shift {}); candidate form {} = {}", m.tag, hexu(&m.v), s, kind, hexu(&x));
+        let case: &dyn Fn() -> String = &case;
+        let ring = match guard(|| <ConstDivisor as Reducer<UBig>>::new(&ref_to_u(&m.v))) {
+            Ok(r) => r,
+            Err(p) => {
+                rec.fail(format!("{}|Reducer::new|panic|{}", P, cls), case(), p, "a ring");
+                return;
+            }
+        };
+        hit_ring(rec, m);
+        expect_u(rec, P, "Reducer::new+modulus", cls, guard(|| Reducer::<UBig>::modulus(&ring)), &m.v, case);
+        // the premise of this oracle: transform(r) = r << shift
+        if valid {
+            let r = &x >> s;
+            rec.step();
+            match guard(|| Reducer::<UBig>::transform(&ring, ref_to_u(&r))) {
+                Ok(t) if u_to_ref(&t) == x => {}
+                Ok(t) => {
+                    rec.fail(format!("{}|Reducer::transform|unexpected-form|{}", P, cls), case(), hexu(&u_to_ref(&t)), "r << shift (documented normalisation); the check oracle is not applicable otherwise");
+                    return;
+                }
+                Err(p) => {
+                    rec.fail(format!("{}|Reducer::transform|panic|{}", P, cls), case(), p, "r << shift");
+                    return;
+                }
+            }
+        }
+        rec.hit(if valid { "check:valid-form" } else { kind });
+        rec.nontrivial();
+        let ux = ref_to_u(&x);
+        rec.step();
+        match guard(|| Reducer::<UBig>::check(&ring, &ux)) {
+            Ok(g) if g == valid => {}
+            Ok(g) => rec.fail(format!("{}|Reducer::check|wrong-value|{},{}", P, cls, kind), case(), format!("{}", g), format!("{}", valid)),
+            Err(p) => rec.fail(format!("{}|Reducer::check|panic|{}", P, cls), case(), p, format!("{}", valid)),
+        }
+        rec.sample(|| format!("mod {}: check({})", m.tag, kind));
+    });
+    ctx.require_classes("reducer.check", &["check:valid-form", "invalid:equals-normalised-modulus", "invalid:normalised-modulus+1unit", "invalid:one-word-longer", "low-bits:1"]);
 }
